@@ -475,10 +475,10 @@ def check_kani_property(prop, spec, tier):
         for _attempt in range(3):
             # Kani does not always emit a playback test for the failed assertion (observed: only the
             # cover witnesses were printed in one of two identical runs), so ask again if needed; a run that died
-            # (trace generation needs more memory and time than the verdict did) is repeated ONCE with 28 GB / 45 min
+            # (trace generation needs more memory and time than the verdict did) is repeated ONCE with 40 GB / 50 min
             big = _attempt > 0 and getattr(concrete_playback, "last_crashed", False)
             tests = concrete_playback(gcrate, h, cbmc_args=g.get("cbmc_args", ()), features=features,
-                                      timeout=2700 if big else 900, mem_gb=28 if big else 14, kani_args=g.get("kani_args", ()))
+                                      timeout=3000 if big else 900, mem_gb=40 if big else 14, kani_args=g.get("kani_args", ()))
             if [t for t in tests if not t["is_cover"]]:
                 break
             if big:
